@@ -614,3 +614,42 @@ func TestD29_BSI64ParOrUnequalWidths(t *testing.T) {
 		t.Fatalf("column 2 holds %d,%v, want 1000", v, ok)
 	}
 }
+
+// #30 C04/C15: the word scans of the bitmap container must not report positions that are set.
+func TestD30_UnsetScanInsideABitmapChunk(t *testing.T) {
+	b := roaring.New()
+	for v := uint32(0); v < 20000; v += 2 {
+		b.Add(v)
+	}
+	b.AddRange(60, 70) // bits 60..69 set, straddling a word edge
+	it := b.UnsetIterator(62, 72)
+	var got []uint32
+	for it.HasNext() {
+		got = append(got, it.Next())
+	}
+	if len(got) != 1 || got[0] != 71 {
+		t.Errorf("UnsetIterator(62,72) = %v, want [71]", got)
+	}
+	if v := b.NextAbsentValue(61); v != 71 {
+		t.Errorf("NextAbsentValue(61) = %d, want 71", v)
+	}
+	if v := b.PreviousAbsentValue(66); v != 59 {
+		t.Errorf("PreviousAbsentValue(66) = %d, want 59", v)
+	}
+}
+
+// #31 C15: NextAbsentValue/PreviousAbsentValue in a chunk other than the first keep the chunk key,
+// and walk into the adjacent chunk.
+func TestD31_AbsentValueKeepsTheChunkKey(t *testing.T) {
+	b := roaring.BitmapOf(65541)
+	if v := b.NextAbsentValue(65541); v != 65542 {
+		t.Errorf("NextAbsentValue(65541) on {65541} = %d, want 65542", v)
+	}
+	if v := b.PreviousAbsentValue(65541); v != 65540 {
+		t.Errorf("PreviousAbsentValue(65541) on {65541} = %d, want 65540", v)
+	}
+	c := rangeBM(0, 65537) // chunk 0 full, 65536 present
+	if v := c.NextAbsentValue(5); v != 65537 {
+		t.Errorf("NextAbsentValue(5) on [0,65537) = %d, want 65537", v)
+	}
+}
